@@ -66,6 +66,15 @@ let items_of (toks : string list) : item list =
       (match split_on ':' r with
        | [c; bh] -> [ICmd (n_of_int (int_of_string c), bytes_of_hex bh)]
        | _ -> raise (Bad "C"))
+    | 'Q' ->
+      (match split_on ':' r with
+       | [bh; fh] ->
+         let f = bytes_of_hex fh in
+         (match deliver f with
+          | Some d when int_of_n d.d_m.m_id = 0x1003 && Stdlib.List.length d.d_m.m_body = 10 ->
+            [IAsk (n_of_int 0x9003, bytes_of_hex bh, d)]
+          | _ -> raise (Bad "Q"))
+       | _ -> raise (Bad "Q"))
     | _ -> raise (Bad "item")) toks
 
 let tok k (d : dmsg) = Printf.sprintf "%s%04x.%d.%x" k (int_of_n d.d_m.m_id) (int_of_n d.d_m.m_serial) (cs d.d_data)
@@ -100,7 +109,7 @@ let show (mode : string) (tr : obs list) : string =
    written as a loop, because the extracted recursive [trace] and [items_moves] need one stack frame
    per message *)
 let run_items_iter (its : item list) : obs list =
-  let msgs = Stdlib.List.concat_map (fun it -> match it with IMsg d -> [d] | ICmd _ -> []) its in
+  let msgs = Stdlib.List.concat_map (fun it -> match it with IMsg d -> [d] | ICmd _ -> [] | IAsk (_, _, d) -> [d]) its in
   let c = ref (init msgs) and h = ref None and out = ref [] in
   let apply mv =
     let (c', o) = step !c mv in
@@ -112,7 +121,13 @@ let run_items_iter (its : item list) : obs list =
       Stdlib.List.iter apply (seq_moves d);
       (match !h with Some _ -> () | None -> if joins d then h := Some d.d_m)
     | ICmd (cmd, body) ->
-      (match !h with Some hh -> apply (MCmd (hh, cmd, body)) | None -> ())) its;
+      (match !h with Some hh -> apply (MCmd (hh, cmd, body)) | None -> ())
+    | IAsk (cmd, body, d) ->
+      (match !h with
+       | Some hh -> Stdlib.List.iter apply [MCmd (hh, cmd, body); MLook; MSend; MAbsorb]
+       | None ->
+         Stdlib.List.iter apply (seq_moves d);
+         if joins d then h := Some d.d_m)) its;
   Stdlib.List.rev !out
 
 (* conv <A|B> <item> ... : one connection, the items in order
